@@ -268,4 +268,104 @@ mod verif_replay_interp {
         assert_eq!(run(DOCORDER, &["step", "go"]), fin("WinA"));
         assert_eq!(run(DOCORDER, &["step", "auto"]), fin("WinA"));
     }
+
+    const AUTOFORWARD: &str = r###"<scxml xmlns="http://www.w3.org/2005/07/scxml" initial="s0" version="1.0" datamodel="rfsm-expression">
+ <state id="s0">
+  <onentry><send event="timeout" delay="3s"/></onentry>
+  <invoke type="scxml" id="kid" autoforward="AUTOFORWARD"><content><scxml xmlns="http://www.w3.org/2005/07/scxml" initial="c0" version="1.0" datamodel="rfsm-expression"><state id="c0"><transition event="ping" target="c1"/></state><state id="c1"><onentry><send target="#_parent" event="child.gotping"/></onentry></state></scxml></content></invoke>
+  <transition event="child.gotping" target="forwarded"/>
+  <transition event="timeout" target="notforwarded"/>
+ </state>
+ <final id="forwarded"/><final id="notforwarded"/>
+</scxml>"###;
+
+    /// C14: an external event the parent receives from outside is forwarded to a child invoked with autoforward="true",
+    /// and is not forwarded without autoforward (control)
+    #[test]
+    fn verif_replay_interp_autoforward() {
+        assert_eq!(run(&AUTOFORWARD.replace("AUTOFORWARD", "true"), &["ping"]), fin("forwarded"));
+        assert_eq!(run(&AUTOFORWARD.replace("AUTOFORWARD", "false"), &["ping"]), fin("notforwarded"));
+    }
+
+    const FINALIZE: &str = r###"<scxml xmlns="http://www.w3.org/2005/07/scxml" initial="s0" version="1.0" datamodel="rfsm-expression">
+ <datamodel><data id="seen" expr="0"/></datamodel>
+ <state id="s0">
+  <onentry><send event="timeout" delay="3s"/></onentry>
+  <invoke type="scxml" INVOKEID><content><scxml xmlns="http://www.w3.org/2005/07/scxml" initial="c0" version="1.0" datamodel="rfsm-expression"><state id="c0"><onentry><send target="#_parent" event="child.hello"/></onentry></state></scxml></content>
+   <finalize><assign location="seen" expr="seen + 1"/></finalize>
+  </invoke>
+  <transition event="child.hello" cond="seen == 1" target="finalized"/>
+  <transition event="child.hello" target="notfinalized"/>
+  <transition event="timeout" target="nochildevent"/>
+ </state>
+ <final id="finalized"/><final id="notfinalized"/><final id="nochildevent"/>
+</scxml>"###;
+
+    /// C14: the <finalize> of the invoke an event comes from runs (once) before transitions are selected for that event,
+    /// for an invoke with an author-given id and for one with a generated id
+    #[test]
+    fn verif_replay_interp_finalize_before_selection() {
+        assert_eq!(run(&FINALIZE.replace("INVOKEID", r#"id="kid""#), &[]), fin("finalized"));
+        assert_eq!(run(&FINALIZE.replace("INVOKEID", ""), &[]), fin("finalized"));
+    }
+
+    const FOREACH: &str = r###"<scxml xmlns="http://www.w3.org/2005/07/scxml" initial="s0" version="1.0" datamodel="rfsm-expression">
+ <datamodel>
+  <data id="arr" expr="[4,5,6]"/><data id="it" expr="0"/><data id="ix" expr="0"/>
+  <data id="items" expr="0"/><data id="idxs" expr="0"/><data id="after" expr="0"/><data id="tail" expr="0"/>
+ </datamodel>
+ <state id="s0">
+  <onentry>
+   <foreach array="arr" item="it" index="ix">
+    <assign location="items" expr="items * 10 + it"/>
+    <assign location="idxs" expr="idxs * 10 + ix + 1"/>
+    BODY
+    <assign location="after" expr="after * 10 + it"/>
+   </foreach>
+   <assign location="tail" expr="1"/>
+  </onentry>
+  <transition cond="EXPECT" target="s1"/>
+  <transition target="wrongvalues"/>
+ </state>
+ <state id="s1">
+  <onentry><raise event="probe"/></onentry>
+  <transition event="error.execution" target="sawerror"/>
+  <transition event="probe" target="noerror"/>
+ </state>
+ <final id="sawerror"/><final id="noerror"/><final id="wrongvalues"/>
+</scxml>"###;
+
+    /// C08: <foreach> visits the items in order, binding item and index; an evaluation error in its body raises
+    /// error.execution and ends the foreach and the rest of the enclosing block (and only that: the session carries on)
+    #[test]
+    fn verif_replay_interp_foreach_order_and_abort() {
+        let all = FOREACH
+            .replace("BODY", "")
+            .replace("EXPECT", "(items == 456) &amp; (idxs == 123) &amp; (after == 456) &amp; (tail == 1)");
+        assert_eq!(run(&all, &[]), fin("noerror"));
+        let failing = FOREACH
+            .replace("BODY", r#"<if cond="it == 5"><assign location="items" expr="nosuchvariable + 1"/></if>"#)
+            .replace("EXPECT", "(items == 45) &amp; (idxs == 12) &amp; (after == 4) &amp; (tail == 0)");
+        assert_eq!(run(&failing, &[]), fin("sawerror"));
+    }
+
+    const GLOBAL_SCRIPT: &str = r###"<scxml xmlns="http://www.w3.org/2005/07/scxml" initial="s0" version="1.0" datamodel="rfsm-expression" binding="BINDING">
+ <datamodel><data id="v" expr="1"/></datamodel>
+ <script>v = v + 1</script>
+ <state id="s0">
+  <datamodel><data id="w" expr="10"/></datamodel>
+  <onentry><raise event="probe"/></onentry>
+  <transition event="error.execution" target="scripterror"/>
+  <transition event="probe" cond="v == 2" target="pass"/>
+  <transition event="probe" target="wrongvalue"/>
+ </state>
+ <final id="pass"/><final id="scripterror"/><final id="wrongvalue"/>
+</scxml>"###;
+
+    /// C09: with early binding the data have their values before the global <script> runs (which runs before the
+    /// initial states are entered).  (With late binding the property only speaks about the data of states.)
+    #[test]
+    fn verif_replay_interp_data_before_global_script() {
+        assert_eq!(run(&GLOBAL_SCRIPT.replace("BINDING", "early"), &[]), fin("pass"));
+    }
 }
